@@ -13,7 +13,7 @@ def keyNat (w : Bytes) : Nat := w.foldl (fun a c => a * 256 + c.toNat) 0
 /-- linear look-up by (length, base-256 key) -/
 def lookupIn : List (Nat × Nat × Nat) → Nat → Nat → Option Nat
   | [], _, _ => none
-  | (l', n', v) :: t, l, n => if l == l' && n == n' then some v else lookupIn t l n
+  | (l', n', v) :: t, l, n => if Nat.beq l l' && Nat.beq n n' then some v else lookupIn t l n
 
 def lookupKw (l n : Nat) : Option Nat := lookupIn Gen.keywords l n
 
@@ -24,7 +24,7 @@ def lookupKwFast (l n : Nat) : Option Nat := kwMap[(l, n)]?
 
 /-- strictly increasing in (length, key): implies pairwise distinct keys -/
 def strictSorted : List (Nat × Nat × Nat) → Bool
-  | a :: b :: t => (a.1 < b.1 || (a.1 == b.1 && a.2.1 < b.2.1)) && strictSorted (b :: t)
+  | a :: b :: t => (Nat.blt a.1 b.1 || (Nat.beq a.1 b.1 && Nat.blt a.2.1 b.2.1)) && strictSorted (b :: t)
   | _ => true
 
 def keyLt (a b : Nat × Nat × Nat) : Prop := a.1 < b.1 ∨ (a.1 = b.1 ∧ a.2.1 < b.2.1)
@@ -34,8 +34,11 @@ theorem keyLt_trans {a b c : Nat × Nat × Nat} (h1 : keyLt a b) (h2 : keyLt b c
 
 theorem strictSorted_cons {a b : Nat × Nat × Nat} {t} (h : strictSorted (a :: b :: t) = true) :
     keyLt a b ∧ strictSorted (b :: t) = true := by
-  simp only [strictSorted, Bool.and_eq_true, Bool.or_eq_true, decide_eq_true_eq, beq_iff_eq] at h
-  exact ⟨h.1, h.2⟩
+  simp only [strictSorted, Bool.and_eq_true, Bool.or_eq_true, Nat.blt_eq] at h
+  refine ⟨?_, h.2⟩
+  rcases h.1 with h1 | ⟨h1, h2⟩
+  · exact Or.inl h1
+  · exact Or.inr ⟨Nat.eq_of_beq_eq_true h1, h2⟩
 
 theorem strictSorted_head_lt : ∀ (l : List (Nat × Nat × Nat)) (a : Nat × Nat × Nat),
     strictSorted (a :: l) = true → ∀ x ∈ l, keyLt a x
@@ -71,9 +74,10 @@ theorem lookupIn_some_mem : ∀ (t : List (Nat × Nat × Nat)) (l n v : Nat),
     simp only [lookupIn] at h
     split at h
     · rename_i hc
-      simp only [Bool.and_eq_true, beq_iff_eq] at hc
+      simp only [Bool.and_eq_true] at hc
       cases h
-      simp [hc.1, hc.2]
+      rw [Nat.eq_of_beq_eq_true hc.1, Nat.eq_of_beq_eq_true hc.2]
+      exact List.mem_cons_self
     · exact List.mem_cons_of_mem _ (lookupIn_some_mem t l n v h)
 
 theorem lookupIn_none_not_mem : ∀ (t : List (Nat × Nat × Nat)) (l n : Nat),
@@ -87,9 +91,11 @@ theorem lookupIn_none_not_mem : ∀ (t : List (Nat × Nat × Nat)) (l n : Nat),
       have ih := lookupIn_none_not_mem t l n h
       simp only [List.map_cons, List.contains_cons, Bool.or_eq_false_iff]
       refine ⟨?_, ih⟩
-      simp only [Bool.and_eq_true, beq_iff_eq, not_and] at hc
+      simp only [Bool.and_eq_true, not_and] at hc
       simp only [beq_eq_false_iff_ne, ne_eq, Prod.mk.injEq, not_and]
-      exact hc
+      intro h1 h2
+      subst h1; subst h2
+      exact hc (Nat.beq_refl _) (Nat.beq_refl _)
 
 set_option maxRecDepth 200000 in
 /-- table fact, re-checked by the kernel against the regenerated table on every build -/
